@@ -178,6 +178,7 @@ type Explorer struct {
 	steps    int
 	closures map[int64]closureVal // closures created on the way, by the id in their term
 	arrays   map[int64][]arrEntry // element facts of arrays copied as whole values
+	private  map[string]bool      // allocations no callee can reach (variables captured only by closures expanded in place)
 	resolved *ssa.Function        // callee of the dynamic call being recorded, when its function value is known
 	invPhi   map[*ssa.Phi]*T // loop-invariant header phis of the loop being entered
 	probing  bool // evaluating a loop header to see whether its test is decided
@@ -324,6 +325,10 @@ func (e *Explorer) lvalue(s *pstate, addr ssa.Value) *T {
 		base := e.lvalue(s, a.X)
 		st := derefStruct(a.X.Type())
 		f := st.Field(a.Field)
+		if embeddedStruct(f) {
+			// the fields of an embedded struct are the outer struct's own (promoted) fields
+			return base
+		}
 		return &T{Op: "sel", S: f.Name(), A: []*T{base}, Ty: f.Type()}
 	case *ssa.IndexAddr:
 		var base *T
@@ -395,7 +400,9 @@ func (e *Explorer) allocOf(s *pstate, addr ssa.Value) (*ssa.Alloc, []string) {
 			return a, fields
 		case *ssa.FieldAddr:
 			st := derefStruct(a.X.Type())
-			fields = append([]string{st.Field(a.Field).Name()}, fields...)
+			if !embeddedStruct(st.Field(a.Field)) {
+				fields = append([]string{st.Field(a.Field).Name()}, fields...)
+			}
 			addr = a.X
 		default:
 			return nil, nil
@@ -570,6 +577,26 @@ func (e *Explorer) loadAlloc(s *pstate, a *ssa.Alloc, fields []string, ty types.
 
 func (e *Explorer) store(s *pstate, in *ssa.Store, blk int) {
 	v := e.val(s, in.Val)
+	// an embedded struct assigned as a whole (s.battleState = newBattleState()): its fields, one by one
+	if fa, ok := in.Addr.(*ssa.FieldAddr); ok {
+		if f := derefStruct(fa.X.Type()).Field(fa.Field); embeddedStruct(f) {
+			if a, _ := e.allocOf(s, fa.X); a == nil || a.Heap {
+				base := e.lvalue(s, fa.X)
+				est := f.Type().Underlying().(*types.Struct)
+				for i := 0; i < est.NumFields(); i++ {
+					ef := est.Field(i)
+					lv := &T{Op: "sel", S: ef.Name(), A: []*T{base}, Ty: ef.Type()}
+					fv := mksel(v, ef.Name(), ef.Type())
+					s.events = append(s.events, Event{Kind: "store", Instr: in, Pos: in.Pos(), LV: lv, Val: fv, Block: blk, Epoch: s.seq})
+					s.bump(lv)
+					if !untracked(lv) {
+						s.heap[lv.Key()], s.heapLV[lv.Key()] = fv, lv
+					}
+				}
+				return
+			}
+		}
+	}
 	if a, fields := e.allocOf(s, in.Addr); a != nil && !a.Heap {
 		st := s.allocs[a]
 		if st == nil {
@@ -713,6 +740,15 @@ func (e *Explorer) havoc(s *pstate, callee *ssa.Function) {
 	external := callee != nil && !e.W.inPkgs(callee)
 	for k, lv := range s.heapLV {
 		if unknown || lvTouches(lv, mods) {
+			if len(e.private) > 0 {
+				root := lv
+				for root.Op == "sel" || root.Op == "elem" {
+					root = root.A[0]
+				}
+				if root.Op == "new" && e.private[root.Key()] && root == lv {
+					continue // the variable itself (not what it points to) is out of every callee's reach
+				}
+			}
 			if external {
 				root := lv
 				for root.Op == "sel" || root.Op == "elem" {
@@ -857,6 +893,12 @@ func (e *Explorer) runFrom(b *ssa.BasicBlock, pred int, from int, s *pstate, sta
 					nm += it // storage created in an unrolled iteration is distinct per iteration
 				}
 				s.regs[in] = &T{Op: "new", S: nm, C: int64(allocID(in)), Ty: in.Type()}
+				if e.W.privateCell(in) {
+					if e.private == nil {
+						e.private = map[string]bool{}
+					}
+					e.private[s.regs[in].Key()] = true
+				}
 				if isTextBuilder(in.Type()) {
 					lv := builderText(s.regs[in])
 					s.heap[lv.Key()], s.heapLV[lv.Key()] = tstr(""), lv // a new builder is empty
@@ -882,6 +924,9 @@ func (e *Explorer) runFrom(b *ssa.BasicBlock, pred int, from int, s *pstate, sta
 		case *ssa.Field:
 			st := in.X.Type().Underlying().(*types.Struct)
 			s.regs[in] = mksel(e.val(s, in.X), st.Field(in.Field).Name(), in.Type())
+			if embeddedStruct(st.Field(in.Field)) && e.val(s, in.X).Op != "struct" {
+				s.regs[in] = e.val(s, in.X) // promoted fields: select them from the outer value
+			}
 		case *ssa.Index:
 			s.regs[in] = &T{Op: "elem", A: []*T{e.val(s, in.X), e.val(s, in.Index)}, Ty: in.Type()}
 			s.events = append(s.events, Event{Kind: "index", Instr: in, Pos: in.Pos(), Args: []*T{e.val(s, in.X), e.val(s, in.Index)}, Block: rb})
@@ -951,6 +996,14 @@ func (e *Explorer) runFrom(b *ssa.BasicBlock, pred int, from int, s *pstate, sta
 		case *ssa.Call:
 			callee := in.Call.StaticCallee()
 			var cv *closureVal
+			if callee != nil && callee.Parent() != nil && !in.Call.IsInvoke() {
+				// a function literal called where it was made: expand it with its captured variables
+				if fv := e.val(s, in.Call.Value); fv.Op == "closure" {
+					if c, ok := e.closures[fv.C]; ok && e.W.closureInlinable(c.fn) {
+						cv = &c
+					}
+				}
+			}
 			if callee == nil && !in.Call.IsInvoke() {
 				// a call through a function value that is known on this path:
 				// a named function (lookup := f; lookup(x)) or a function literal
@@ -1931,4 +1984,14 @@ func (e *Explorer) forkOnTableIndex(b *ssa.BasicBlock, pred, ii int, s *pstate, 
 		}
 	}
 	return n > 0
+}
+
+// embeddedStruct: f is an embedded (anonymous) field of struct type: its
+// fields are promoted into the enclosing struct.
+func embeddedStruct(f *types.Var) bool {
+	if !f.Embedded() {
+		return false
+	}
+	_, ok := f.Type().Underlying().(*types.Struct)
+	return ok
 }
